@@ -67,7 +67,11 @@ func c10Schema() (*tspace.Schema, []c10col) {
 		}
 		add(&tspace.Col{Name: "s_" + x.n, Key: b(x.t), Min: 1, Max: 1}, x.u[:n3], nil)
 	}
+	// bounded multi-valued collections (1 < max < unlimited) take their own branches in the library
+	add(&tspace.Col{Name: "bset_int", Key: b("integer"), Min: 0, Max: 8}, ints, nil)
+	add(&tspace.Col{Name: "bset_str", Key: b("string"), Min: 0, Max: 4096}, strs, nil)
 	sv, iv, uv := b("string"), b("integer"), b("uuid")
+	add(&tspace.Col{Name: "bmap_ss", Key: b("string"), Val: &sv, Min: 0, Max: 8}, strs[:3], strs[1:3])
 	add(&tspace.Col{Name: "map_ss", Key: b("string"), Val: &sv, Min: 0, Max: -1}, strs[:3], strs[1:3])
 	add(&tspace.Col{Name: "map_si", Key: b("string"), Val: &iv, Min: 0, Max: -1}, strs[:3], ints[:2])
 	add(&tspace.Col{Name: "map_is", Key: b("integer"), Val: &sv, Min: 0, Max: -1}, ints[:3], strs[:2])
